@@ -344,6 +344,9 @@ func (s *Subscriber) doClose() error {
 
 	s.httpPeerstore.Close()
 
+	// Release the sync client's idle connections and its client host.
+	s.ipniSync.Close()
+
 	return err
 }
 
